@@ -1,16 +1,112 @@
 //go:build verif
 
 // Contracts for package rbc, read by /verif's govc (comment-only; no declarations).
+//
+// Ghost state gives every event a logical time (ghost parameter `now` of Receive, strictly increasing per
+// receiver): tDirect[x] first direct receipt of payload x = (digest, sender, round) from its sender,
+// tAckFrom[x][q] first acknowledgement of x attributed to q, tAckSent[x] first acknowledgement of x sent by
+// this receiver, tDeliver[(s, r)] hand-over to the backend, tHalt detection of conflicting digests
+// (0 = never). P is the participant set of the session (what the participant filter lets through).
 
 package rbc
 
+//@ spec func sr(x msgReception) senderAndRound = senderAndRound{x.sender, x.msgRound}
+
 //@ type Receiver
-//@   invariant [config]  this.Logger != nil && this.ForwardToBackend != nil && this.BroadcastAck != nil
-//@   invariant [maps]    (this.reception == nil) == (this.receivedRoundFromSender == nil)
-//@   invariant [entries] forall x msgReception :: x in this.reception ==> this.reception[x] != nil && this.reception[x].idSet != nil
+//@   ghost P        set[uint16]
+//@   ghost gNow     int
+//@   ghost tDirect  map[msgReception]int
+//@   ghost tAckFrom map[msgReception]map[uint16]int
+//@   ghost tAckSent map[msgReception]int
+//@   ghost tDeliver map[senderAndRound]int
+//@   ghost tHalt    int
+//@   invariant [config]   this.Logger != nil && this.ForwardToBackend != nil && this.BroadcastAck != nil
+//@   invariant [members]  this.SelfID in this.P && this.N == card(this.P)
+//@   invariant [maps]     (this.reception == nil) == (this.receivedRoundFromSender == nil)
+//@   invariant [entries]  forall x msgReception :: x in this.reception ==> this.reception[x] != nil && this.reception[x].idSet != nil
+//@   invariant [distinct] forall x msgReception, y msgReception :: x in this.reception && y in this.reception && x != y ==>
+//@                          this.reception[x] != this.reception[y] && this.reception[x].idSet != this.reception[y].idSet
+//@   invariant [pin]      forall x msgReception :: x in this.reception ==>
+//@                          sr(x) in this.receivedRoundFromSender && this.receivedRoundFromSender[sr(x)] == x.digest
+//@   invariant [vouchers] forall x msgReception, q uint16 :: { dom(this.reception[x].idSet, q) } x in this.reception && q in this.reception[x].idSet ==>
+//@                          q in this.P && q != x.sender &&
+//@                          (q == this.SelfID ==> this.tDirect[x] > 0) && (q != this.SelfID ==> this.tAckFrom[x][q] > 0)
+//@   invariant [stored]   forall x msgReception :: x in this.reception && this.reception[x].m != nil ==>
+//@                          this.tDirect[x] > 0 && x.sender in this.P
+//@   invariant [directpin] forall x msgReception :: this.tDirect[x] > 0 ==> sr(x) in this.receivedRoundFromSender
+//@   invariant [delivered] forall x msgReception :: x in this.reception && this.reception[x].delivered ==>
+//@                          this.tDeliver[sr(x)] > 0 && 0 < this.tDirect[x] && this.tDirect[x] <= this.tDeliver[sr(x)] &&
+//@                          (this.tHalt == 0 || this.tHalt >= this.tDeliver[sr(x)]) &&
+//@                          forall q uint16 :: q in this.P && q != x.sender && q != this.SelfID ==>
+//@                            0 < this.tAckFrom[x][q] && this.tAckFrom[x][q] <= this.tDeliver[sr(x)]
+//@   invariant [deliverrev] forall s uint16, rd uint8 :: this.tDeliver[senderAndRound{s, rd}] > 0 ==>
+//@                          senderAndRound{s, rd} in this.receivedRoundFromSender &&
+//@                          msgReception{this.receivedRoundFromSender[senderAndRound{s, rd}], s, rd} in this.reception &&
+//@                          this.reception[msgReception{this.receivedRoundFromSender[senderAndRound{s, rd}], s, rd}].delivered
+//@   invariant [acksent]  forall x msgReception :: this.tAckSent[x] == this.tDirect[x]
+//@   invariant [conflict] forall x msgReception :: this.tDirect[x] > 0 && this.receivedRoundFromSender[sr(x)] != x.digest ==>
+//@                          0 < this.tHalt && this.tHalt <= this.tDirect[x]
+//@   invariant [halt]     this.equivocationDetected == (this.tHalt > 0)
+//@   invariant [time]     0 <= this.tHalt && this.tHalt <= this.gNow &&
+//@                        (forall x msgReception :: 0 <= this.tDirect[x] && this.tDirect[x] <= this.gNow) &&
+//@                        (forall x msgReception, q uint16 :: 0 <= this.tAckFrom[x][q] && this.tAckFrom[x][q] <= this.gNow) &&
+//@                        (forall k senderAndRound :: 0 <= this.tDeliver[k] && this.tDeliver[k] <= this.gNow)
+//@   invariant [totality] forall x msgReception :: x in this.reception && !this.equivocationDetected &&
+//@                          this.reception[x].m != nil && len(this.reception[x].idSet) >= this.N-1 ==> this.reception[x].delivered
 //@
 //@ func (*Receiver).Receive
 //@   props C10 C02 C03 C04
 //@   unit
+//@   ghost-param now int
 //@   requires m != nil
 //@   requires from != r.SelfID
+//@   requires from in r.P
+//@   requires now > r.gNow
+//@   on-entry:
+//@     ghost r.gNow = now
+//@   on-call r.ForwardToBackend(fm, ff):
+//@     assert [p2p-unchanged] fm == m && ff == from
+//@   on-call r.BroadcastAck(d, s, rd):
+//@     ghost r.tAckSent[msgReception{d, s, rd}] = ite(r.tAckSent[msgReception{d, s, rd}] == 0, now, r.tAckSent[msgReception{d, s, rd}])
+//@
+//@ func (*Receiver).registerMsg
+//@   props C10 C02 C03 C04
+//@   ghost-param now int
+//@   requires inv(r)
+//@   requires !r.equivocationDetected && r.reception != nil && r.gNow == now && now > 0
+//@   requires from in r.P
+//@   requires msg == nil ==> from != r.SelfID && from != ack.sender
+//@   requires msg != nil ==> from == r.SelfID && ack.sender in r.P && ack.sender != r.SelfID
+//@   ensures invExcept(r, acksent)
+//@   ensures [acksent-others] forall x msgReception :: x != ack ==> r.tAckSent[x] == r.tDirect[x]
+//@   ensures [direct-time]    r.tDirect[ack] == ite(msg != nil && old(r.tDirect[ack]) == 0, now, old(r.tDirect[ack])) &&
+//@                            r.tAckSent[ack] == old(r.tAckSent[ack])
+//@   ensures [frame]          r.gNow == now && r.SelfID == old(r.SelfID)
+//@   on-entry:
+//@     ghost r.tDirect[ack] = ite(msg != nil && r.tDirect[ack] == 0, now, r.tDirect[ack])
+//@     ghost r.tAckFrom[ack][from] = ite(msg == nil && r.tAckFrom[ack][from] == 0, now, r.tAckFrom[ack][from])
+//@   at store r.equivocationDetected:
+//@     ghost r.tHalt = now
+//@   on-call r.ForwardToBackend(fm, ff):
+//@     use subsetCardEq(keys(r.reception[ack].idSet), without(r.P, ack.sender))
+//@     assert [non-nil]    fm != nil
+//@     assert [attributed] ff == ack.sender && ack.sender in r.P
+//@     assert [direct]     r.tDirect[ack] > 0 && fm == r.reception[ack].m
+//@     assert [once]       r.tDeliver[senderAndRound{ack.sender, ack.msgRound}] == 0
+//@     ghost r.tDeliver[senderAndRound{ack.sender, ack.msgRound}] = now
+//@
+//@ // Agreement (C02): two honest receivers of one session never hand over different payloads for the same sender
+//@ // and round. Hypotheses: the invariants of both receivers (proved above for every history), and E1: an
+//@ // acknowledgement that one honest party attributes to the other was sent by it strictly earlier (authenticated
+//@ // transport + causality; logical times of both receivers are readings of one global clock).
+//@ lemma rbcAgreement(p *Receiver, q *Receiver, s uint16, rd uint8, d string, d2 string)
+//@   props C02
+//@   requires p != nil && q != nil && p != q
+//@   requires inv(p)
+//@   requires inv(q)
+//@   requires [session] p.P == q.P && p.SelfID != q.SelfID && s != p.SelfID && s != q.SelfID
+//@   requires [E1pq] forall x msgReception :: { p.tAckFrom[x][q.SelfID] } p.tAckFrom[x][q.SelfID] > 0 ==> 0 < q.tAckSent[x] && q.tAckSent[x] < p.tAckFrom[x][q.SelfID]
+//@   requires [E1qp] forall x msgReception :: { q.tAckFrom[x][p.SelfID] } q.tAckFrom[x][p.SelfID] > 0 ==> 0 < p.tAckSent[x] && p.tAckSent[x] < q.tAckFrom[x][p.SelfID]
+//@   requires [p-delivered] msgReception{d, s, rd} in p.reception && p.reception[msgReception{d, s, rd}].delivered
+//@   requires [q-delivered] msgReception{d2, s, rd} in q.reception && q.reception[msgReception{d2, s, rd}].delivered
+//@   assert [agreement] d == d2
